@@ -52,8 +52,8 @@ type pgState struct {
 	// script by a receiving middleware instead of by the SDK's handler
 	scriptMu sync.Mutex
 	script   map[string]*pgScript
-	// a Server.AddTool call parked in its validation section (user code: the schema's MarshalJSON)
-	held *pgHeld
+	// Server.AddTool calls parked in their validation section (user code: the schema's MarshalJSON)
+	held []*pgHeld
 }
 
 // pgGate is a user-supplied schema value. Server.AddTool marshals the schemas it is given while it
@@ -350,14 +350,14 @@ func (st *pgState) close() {
 	for _, it := range st.iters {
 		pgSafe(it.stop)
 	}
-	if h := st.held; h != nil {
-		st.held = nil
+	for _, h := range st.held {
 		close(h.gate.release)
 		select {
 		case <-h.done:
 		case <-time.After(10 * time.Second):
 		}
 	}
+	st.held = nil
 	if st.cs != nil {
 		st.cs.Close()
 	}
@@ -731,7 +731,7 @@ func pgApply(stp **pgState, toks []string) (opline, obs string, tags []string) {
 	case "addhold":
 		// `addhold tools <in|out> x<key> x<val>`: Server.AddTool on another goroutine, parked inside its
 		// validation section (the MarshalJSON of the input / output schema it was given)
-		if len(toks) != 5 || toks[1] != "tools" || st.held != nil {
+		if len(toks) != 5 || toks[1] != "tools" || len(st.held) >= 3 {
 			return opline, "bad-op", nil
 		}
 		h := &pgHeld{k: pgUnhex(toks[3]), v: pgUnhex(toks[4]), done: make(chan string, 1),
@@ -757,9 +757,12 @@ func pgApply(stp **pgState, toks []string) (opline, obs string, tags []string) {
 		} else {
 			tags = append(tags, "addhold-new")
 		}
+		if len(st.held) > 0 {
+			tags = append(tags, "addhold-second")
+		}
 		select {
 		case <-h.gate.entered:
-			st.held = h
+			st.held = append(st.held, h)
 			return opline, "done", tags
 		case r := <-h.done:
 			return opline, "not-held " + r, tags
@@ -773,12 +776,18 @@ func pgApply(stp **pgState, toks []string) (opline, obs string, tags []string) {
 			return opline, "bad-op", nil
 		}
 		k, v := pgUnhex(toks[2]), pgUnhex(toks[3])
-		h := st.held
-		if h == nil || h.k != k || h.v != v {
+		var h *pgHeld
+		for i, x := range st.held {
+			if x.k == k && x.v == v {
+				h = x
+				st.held = append(append([]*pgHeld{}, st.held[:i]...), st.held[i+1:]...)
+				break
+			}
+		}
+		if h == nil {
 			pgAddVia(st.srv, "", k, v)
 			return opline, "ok", []string{"add", "add-tools", "addrelease-unheld"}
 		}
-		st.held = nil
 		close(h.gate.release)
 		select {
 		case r := <-h.done:
@@ -1179,7 +1188,43 @@ func (g *pgGen) removeOp(kind string) string {
 	return strings.Join(toks, " ")
 }
 
+// holdOp: a Server.AddTool that parks inside its validation section (2/3 of the time for a name that is
+// registered: a replacement; sometimes for a name another parked AddTool carries).
+func (g *pgGen) holdOp() string {
+	st := *g.st
+	const kind = "tools"
+	var k string
+	switch ks := st.keys[kind]; {
+	case len(st.held) > 0 && g.rng.Intn(3) == 0:
+		k = st.held[g.rng.Intn(len(st.held))].k
+	case len(ks) > 0 && g.rng.Intn(3) != 0:
+		k = ks[g.rng.Intn(len(ks))]
+	default:
+		k = g.key(kind)
+	}
+	return "addhold " + kind + " " + []string{"in", "out"}[g.rng.Intn(2)] + " x" + hxs(k) + " x" + hxs(g.val())
+}
+
+// releaseOp: one of the parked AddTool calls goes on to its registering section.
+func (g *pgGen) releaseOp() string {
+	st := *g.st
+	h := st.held[g.rng.Intn(len(st.held))]
+	if !pgHas(st.keys["tools"], h.k) {
+		st.keys["tools"] = append(st.keys["tools"], h.k)
+	}
+	return "addrelease tools x" + hxs(h.k) + " x" + hxs(h.v)
+}
+
 func (g *pgGen) mutation(kind string) string {
+	if st := *g.st; kind == "tools" && g.rng.Intn(6) == 0 {
+		// the two sections of an AddTool anywhere a mutation can happen (between page fetches, iterator pulls)
+		if len(st.held) > 0 && g.rng.Intn(2) == 0 {
+			return g.releaseOp()
+		}
+		if len(st.held) < 2 {
+			return g.holdOp()
+		}
+	}
 	if g.rng.Intn(2) == 0 {
 		return g.addOp(kind, 1+g.rng.Intn(2))
 	}
@@ -1262,24 +1307,19 @@ func (g *pgGen) addBad() string {
 // traversed (which rebuilds the sorted index); then it goes on and registers. Afterwards the tool is
 // registered: a traversal must return it.
 func (g *pgGen) heldAdd(emit pgEmit) {
-	st := *g.st
 	const kind = "tools"
-	if st.held != nil {
+	if st := *g.st; len(st.held) >= 2 {
 		return
 	}
-	var k string
-	if ks := st.keys[kind]; len(ks) > 0 && g.rng.Intn(3) != 0 {
-		k = ks[g.rng.Intn(len(ks))]
-	} else {
-		k = g.key(kind)
-	}
-	v := g.val()
-	if emit("addhold "+kind+" "+[]string{"in", "out"}[g.rng.Intn(2)]+" x"+hxs(k)+" x"+hxs(v)) != "done" {
+	op := g.holdOp()
+	if emit(op) != "done" {
 		return
 	}
+	f := strings.Fields(op)
+	k := pgUnhex(f[3])
 	for i, n := 0, 1+g.rng.Intn(4); i < n; i++ {
-		st = *g.st
-		switch r := g.rng.Intn(10); {
+		st := *g.st
+		switch r := g.rng.Intn(12); {
 		case r < 3: // the tool is removed while its (re-)registration is under way
 			emit("remove " + kind + " x" + hxs(k))
 			var keep []string
@@ -1295,19 +1335,33 @@ func (g *pgGen) heldAdd(emit pgEmit) {
 			emit("list " + kind + " -")
 		case r < 9:
 			g.traversal(emit, kind, []int{0, 0, 50}[g.rng.Intn(3)])
+		case r < 11:
+			if st.iters[kind] == nil {
+				g.iterRun(emit, kind, []int{0, 40}[g.rng.Intn(2)])
+			}
 		default:
 			emit(g.readonly())
 		}
 	}
-	st = *g.st
-	emit("addrelease " + kind + " x" + hxs(k) + " x" + hxs(v))
-	if !pgHas(st.keys[kind], k) {
-		st.keys[kind] = append(st.keys[kind], k)
+	g.releaseAll(emit)
+}
+
+// releaseAll: every parked AddTool registers (in a random order); afterwards all of them are registered:
+// a traversal must return them.
+func (g *pgGen) releaseAll(emit pgEmit) {
+	st := *g.st
+	if st == nil || len(st.held) == 0 {
+		return
+	}
+	for st = *g.st; len(st.held) > 0; st = *g.st {
+		if emit(g.releaseOp()) == "bad-op" {
+			break
+		}
 	}
 	if g.rng.Intn(4) != 0 {
-		g.traversal(emit, kind, 0)
+		g.traversal(emit, "tools", 0)
 	} else {
-		emit("iterall " + kind + " -")
+		emit("iterall tools -")
 	}
 }
 
@@ -1657,6 +1711,7 @@ func pgRunCase(out *verifOut, cs string, c int) {
 			emit(g.mutation(kind))
 		}
 	}
+	g.releaseAll(emit)
 }
 
 func TestVerifPaginate(t *testing.T) {
